@@ -14,6 +14,28 @@ VERIF = os.path.dirname(os.path.dirname(os.path.abspath(__file__)))
 REPLAYS = os.path.join(VERIF, "replays")
 
 
+def parts_mismatch(d, e, scale):
+    """Quantile replays carry the exact expected marker state in e['_parts'] = 5 heights, 5 positions, 5 desired positions"""
+    exp = e.get("_parts")
+    if not exp or not d.get("parts") or len(d["parts"]) < 15:
+        return []
+    bad = []
+    w = d["parts"]
+    for j in range(15):
+        if 5 <= j < 10:
+            v = int(w[j], 16)
+            if v >= 1 << 63:
+                v -= 1 << 64
+            if v != int(exp[j]):
+                bad.append(("position[%d]" % (j - 5), v, int(exp[j])))
+        else:
+            v = rpl.w2f(w[j])
+            x = float(exp[j])
+            if not (abs(v - x) <= 1e-9 * max(abs(v), abs(x), 1e-3 * scale)):
+                bad.append((("height[%d]" % j) if j < 5 else ("desired[%d]" % (j - 10)), v, x))
+    return bad
+
+
 def confirm(prop, res):
     """Replay a violated obligation natively. Returns ('violated', path) | ('inconclusive', reason)."""
     rp_ = res.get("_replay")
@@ -35,8 +57,13 @@ def confirm(prop, res):
         if dumps and "_panic" in dumps[0]:
             mism.append({"profile": profile, "panic": dumps[0]["_panic"]})
             continue
+        if info.get("mode") == "all-dumps-bit-equal":
+            for k, d in enumerate(dumps[1:], 1):
+                if d.get("parts") != dumps[0].get("parts"):
+                    mism.append({"profile": profile, "dump": k, "parts": d.get("parts"), "reference_parts": dumps[0].get("parts")})
+            continue
         for k, (d, e) in enumerate(zip(dumps, expected)):
-            bad = rpl.compare(d, e, rel=1e-9, scale=info.get("scale", 1.0))
+            bad = rpl.compare(d, e, rel=1e-9, scale=info.get("scale", 1.0)) + parts_mismatch(d, e, info.get("scale", 1.0))
             if bad:
                 mism.append({"profile": profile, "dump": k, "mismatch": [(n, a, x) for (n, a, x) in bad[:6]]})
     if not mism:
@@ -46,7 +73,7 @@ def confirm(prop, res):
     with open(path, "w") as f:
         json.dump({"property": prop, "engine": "mirsym", "obligation": res["obligation"], "role": res["role"],
                    "values": {k: str(v) for k, v in vals.items()}, "program": program,
-                   "expected": [{k: (None if v is None else (v if isinstance(v, str) else float(v))) for k, v in e.items()} for e in expected],
+                   "expected": None if expected is None else [{k: (None if v is None else (v if isinstance(v, (str, list)) else float(v))) for k, v in e.items()} for e in expected],
                    "native_mismatches": mism, "info": info}, f, indent=1, default=str)
     res["native_mismatches"] = mism[:3]
     return "violated", path
@@ -57,12 +84,18 @@ def replay_file(path):
     bad_total = 0
     for profile in ("debug", "release"):
         dumps = rpl.run_scenario(rec["program"], profile)
+        if rec.get("info", {}).get("mode") == "all-dumps-bit-equal":
+            for k, d in enumerate(dumps[1:], 1):
+                if d.get("parts") != dumps[0].get("parts"):
+                    print("%s dump %d: state %s differs from the add-loop state %s" % (profile, k, d.get("parts"), dumps[0].get("parts")))
+                    bad_total += 1
+            continue
         for k, (d, e) in enumerate(zip(dumps, rec["expected"])):
             if "_panic" in d:
                 print(profile, "panic", d["_panic"])
                 bad_total += 1
                 continue
-            bad = rpl.compare(d, e, rel=1e-9, scale=rec.get("info", {}).get("scale", 1.0))
+            bad = rpl.compare(d, e, rel=1e-9, scale=rec.get("info", {}).get("scale", 1.0)) + parts_mismatch(d, e, rec.get("info", {}).get("scale", 1.0))
             for (n, a, x) in bad:
                 print("%s dump %d: %s = %r, exact %r" % (profile, k, n, a, x))
             bad_total += len(bad)
